@@ -480,4 +480,29 @@ def N24():  # the exporter writes a complete stream and then exits non-zero: the
         shutil.rmtree(root, ignore_errors=True)
 
 
+def N25():  # a branch with a non-UTF-8 name that shares its tip with an earlier ref: a run invented a U+FFFD-spelled twin
+    root, repo = new_repo()
+    try:
+        commit(repo, {'a': 'a'}, 'one'); commit(repo, {'a': 'ab'}, 'two')
+        tip = rev(repo, 'HEAD')
+        subprocess.run([b'git', b'-C', repo.encode(), b'update-ref', b'refs/heads/zz-caf\xe9', tip.encode()], check=True, env=e2e.GIT_ENV)
+        n_before = len(e2e.git(repo, 'for-each-ref', '--format=%(refname)').splitlines())
+        rc, _, _ = tool(repo, '--force')
+        return rc != 0 or len(e2e.git(repo, 'for-each-ref', '--format=%(refname)').splitlines()) != n_before
+    finally:
+        shutil.rmtree(root, ignore_errors=True)
+
+
+def N26():  # a stale lock makes the update-ref transaction after the import fail: the run reported success with the old names still there
+    root, repo = new_repo()
+    try:
+        commit(repo, {'a': 'a'}, 'one'); sh(repo, 'git tag v1'); commit(repo, {'a': 'ab'}, 'two'); sh(repo, 'git tag v2')
+        open(os.path.join(repo, '.git/refs/tags/v1.lock'), 'w').close()
+        rc, _, _ = tool(repo, '--force', '--tag-rename', 'v:rel-')
+        names = e2e.git(repo, 'for-each-ref', '--format=%(refname)').decode().split()
+        return rc == 0 and 'refs/tags/v1' in names
+    finally:
+        shutil.rmtree(root, ignore_errors=True)
+
+
 RECIPES = {k: v for k, v in list(globals().items()) if callable(v) and k[0] in 'FNR' and k[1:].isdigit()}
